@@ -65,8 +65,8 @@ CHECKS = {
     "C12": dict(
         category="model_checking",
         technique="explicit-state BFS over request histories on one spec object, differential oracle against a freshly built spec",
-        text="Breadth-first search over histories (depth 3 quick / 4 thorough) of parse, parse_forest, abandoned iteration, include_controlflow, prefix mode, another start symbol, API parse, fuzz-internal parses and mutation of handed-out trees, on four specs (ambiguous, generator, computed repetition, regex+constraint); states are de-duplicated on the forest-cache content plus aliasing of held trees; every request's observation must equal the same request on a fresh spec.",
-        note="Canonical state ignores Repetition.iteration counters (observations compared modulo renaming of iteration ids). The truncated-forest-cache defect was repaired in /repo.",
+        text="Breadth-first search over histories (depth 3 quick / 4 thorough) of parse, parse_forest, abandoned iteration, include_controlflow, prefix mode, another start symbol, API parse, fuzz-internal parses, requests that hand in a tree instead of a word, and mutation of handed-out trees, on five specs (ambiguous, generator, computed repetition, bit-level, regex+constraint); states are de-duplicated on the forest-cache content plus aliasing of held trees; every request's observation must equal the same request on a fresh spec.",
+        note="Canonical state ignores Repetition.iteration counters (observations compared modulo renaming of iteration ids). The truncated-forest-cache defect and the cache key that ignored the starter bit were repaired in /repo.",
         design="4 C12",
     ),
     "C13": dict(
